@@ -48,7 +48,7 @@ def _worker(i):
     budget = getattr(u, 'budget', None) or UNIT_WALL_BUDGET
     if budget:
         signal.signal(signal.SIGALRM, _alarm)
-        signal.alarm(budget)
+        signal.setitimer(signal.ITIMER_REAL, budget, 5)
     try:
         res = u.run()
     except _Budget:
@@ -62,7 +62,7 @@ def _worker(i):
         res.error = traceback.format_exc()
     finally:
         if budget:
-            signal.alarm(0)
+            signal.setitimer(signal.ITIMER_REAL, 0)
     res.name = u.name
     res.seconds = time.time() - t0
     return i, res
